@@ -241,8 +241,9 @@ def cut_stmt(k, c):
             f"cut!({k.rust}, &s, &p, &q, \"{k.name},cut={c}\"); }}")
 
 
-def gen_cut(g, ks, per):
+def gen_cut(g, ks, per0):
     for k in ks:
+        per = per0 if k.n < 16 else max(2, per0 // 2)   # frames with a 16-byte id: 20-25 s per scenario
         cuts = list(range(k.n + 1))
         for i in range(0, len(cuts), per):
             chunk = cuts[i:i + per]
@@ -253,12 +254,13 @@ def gen_cut(g, ks, per):
                     "cuts": ["whole" if c >= k.n else c for c in chunk]}, unwind=6)
 
 
-def gen_two(g, pairs, per):
+def gen_two(g, pairs, per0):
     for k1, k2 in pairs:
         e1, e2 = k1.exprs("s1"), k2.exprs("s2")
         n1, n2 = k1.n, k2.n
         full = e1 + e2
         scen = [("whole", None)] + [("cut", c) for c in range(0, n1 + n2)]
+        per = per0 if n1 + n2 < 32 else max(2, per0 // 2)
         for i in range(0, len(scen), per):
             chunk = scen[i:i + per]
             stmts = [f"let s1 = <{k1.rust} as Kind>::spec();", f"let s2 = <{k2.rust} as Kind>::spec();",
@@ -326,9 +328,11 @@ def pick(ks, names):
     return [by[n] for n in names]
 
 
-PAIRS_QUICK = [("vreq_cmd1", "vreq_cmd1"), ("vresp_syncev1", "vresp_ev1"), ("vsinit_cmd1", "vsinit_cmd1"),
+PAIRS_QUICK = [("vreq_cmd1", "vreq_cmd1"), ("vresp_ev1", "vresp_ev1"), ("vsinit_cmd1", "vsinit_cmd1"),
                ("vsresp1", "vsresp1")]
 QUICK_SKIP = {"dlop", "sinitd"}   # same layout / code path as wlb; one-byte frame
+# 16-byte-id kinds cost 20-25 s per scenario: quick keeps one per decoder, thorough has all
+QUICK_SKIP_KINDS = {"vresp_synced", "vresp_syncev0", "vsresp0", "vsinit_cmd0"}
 
 
 def plan(tier, seed):
@@ -338,7 +342,7 @@ def plan(tier, seed):
     if tier == "calib":
         ks = allk
     else:
-        ks = [k for k in allk if k.fam in FEASIBLE and not (tier == "quick" and k.fam in QUICK_SKIP)]
+        ks = [k for k in allk if k.fam in FEASIBLE and not (tier == "quick" and (k.fam in QUICK_SKIP or k.name in QUICK_SKIP_KINDS))]
     by = {}
     for k in ks:
         by.setdefault(k.fam, []).append(k)
